@@ -732,3 +732,46 @@ M('c17-send-media-payload-type-test-inverted', 'C17', 'R10', WS, "        if pay
 M('c17-close-event-undocumented-key', 'C17', 'R10', WS, "        response = {'type': EventType.WS_CLOSE, 'code': code}",
   "        response = {'type': EventType.WS_CLOSE, 'code': code, 'status': 403}")
 M('c17-accept-event-undocumented-key', 'C17', 'R10', WS, "            event['subprotocol'] = subprotocol", "            event['subprotocols'] = [subprotocol]")
+
+# ------------------------------------------------------------------ wave 8
+MISC = 'falcon/util/misc.py'
+_KIND_FILTER = """        if param.kind
+        not in (inspect.Parameter.VAR_POSITIONAL, inspect.Parameter.VAR_KEYWORD)
+"""
+# R3 (seed s8-c17-1): the helper behind "does the error handler accept ws" stops reporting keyword-only parameters
+M('c17-get-argnames-positional-kinds-only', 'C17', 'R3', MISC, _KIND_FILTER, """        if param.kind
+        in (
+            inspect.Parameter.POSITIONAL_ONLY,
+            inspect.Parameter.POSITIONAL_OR_KEYWORD,
+        )
+""")
+M('c17-get-argnames-only-positional-or-keyword', 'C17', 'R3', MISC, _KIND_FILTER,
+  "        if param.kind == inspect.Parameter.POSITIONAL_OR_KEYWORD\n")
+M('c17-get-argnames-excludes-keyword-only-too', 'C17', 'R3', MISC, _KIND_FILTER, """        if param.kind
+        not in (inspect.Parameter.VAR_POSITIONAL, inspect.Parameter.VAR_KEYWORD, inspect.Parameter.KEYWORD_ONLY)
+""")
+M('c17-get-argnames-keyword-only-kinds', 'C17', 'R3', MISC, _KIND_FILTER,
+  "        if param.kind is inspect.Parameter.KEYWORD_ONLY or param.kind is inspect.Parameter.POSITIONAL_ONLY\n")
+# R4 (seed s8-c17-2): the registered table below 3000
+_RESERVED = "        elif 1015 <= code <= 1999 or 1004 <= code <= 1006:\n"
+M('c17-code-rejects-iana-1012-1014', 'C17', 'R4', WS, _RESERVED, "        elif 1012 <= code <= 1999 or 1004 <= code <= 1006:\n")
+M('c17-code-rejects-1007-1010', 'C17', 'R4', WS, _RESERVED, "        elif 1015 <= code <= 1999 or 1004 <= code <= 1010:\n")
+M('c17-code-rejects-1001-1003', 'C17', 'R4', WS, _RESERVED, "        elif 1015 <= code <= 1999 or 1001 <= code <= 1006:\n")
+M('c17-code-lets-1004-pass', 'C17', 'R4', WS, _RESERVED, "        elif 1015 <= code <= 1999 or 1005 <= code <= 1006:\n")
+M('c17-code-lets-1016-1999-pass', 'C17', 'R4', WS, _RESERVED, "        elif code == 1015 or 1004 <= code <= 1006:\n")
+# R2 (seed s8-c17-3): an operation other than close() emits on the raw send, past the gate that translates server errors
+M('c17-accept-bypasses-send-gate', 'C17', 'R2', WS, """        await self._send(event)
+        self._state = _WebSocketState.ACCEPTED
+""", """        await self._asgi_send(event)
+        self._state = _WebSocketState.ACCEPTED
+""")
+M('c17-send-gate-catches-oserror-only', 'C17', 'R2', WS, """            await self._asgi_send(msg)
+        except Exception as ex:
+""", """            await self._asgi_send(msg)
+        except OSError as ex:
+""")
+M('c17-send-gate-reraises-unclassified', 'C17', 'R2', WS, """            translated_ex = self._translate_webserver_error(ex)
+            if translated_ex:
+""", """            translated_ex = None
+            if translated_ex:
+""")
